@@ -15,7 +15,7 @@ LEVEL_TEXT = ("Kernel-`decide`d theorem on the access table regenerated from eve
               "different values per world vs unbatched Models holding each slice, bit for bit, fields drawn from the regenerated table.")
 LEVEL_NOTE = ("C10_partial: fields consumed on the HOST at put_model/make_data time (never read by a device kernel) are outside the table and listed in the evidence as host-consumed; the differential "
               "covers float fields only. The flex ccd_tolerance deviation found by this table was repaired (fix: commit). Trusted: Lean kernel, E3 extractor.")
-ASSUMPTIONS = ["perturbations are multiplicative (0.8..1.2) so that the model stays valid; zero-valued fields are trivial and counted as such"]
+ASSUMPTIONS = ["perturbations are multiplicative (0.8..1.2) for non-zero fields and small non-negative offsets (0.01..0.06, slice 0 unchanged) for all-zero fields, so that the model stays valid"]
 
 VERIF = os.path.abspath(os.path.join(os.path.dirname(__file__), "..", ".."))
 
@@ -61,7 +61,7 @@ def _run(ctx, ncases, nsteps):
     mjd.ctrl[:] = rng.normal(size=mjm.nu)
     nworld = int(rng.choice([2, 3, 4]))
     nb = int(rng.choice([nworld] + [k for k in (2,) if nworld % k == 0]))   # batch size: nworld or a divisor
-    # candidates: float fields this model actually populates with non-zero values (a zero field is trivially slice-independent)
+    # candidates: float fields this model has entries for
     m0 = mjw.put_model(mjm)
     cands = []
     for f in fields:
@@ -69,7 +69,8 @@ def _run(ctx, ncases, nsteps):
       a0 = getattr(o0, n0, None)
       if a0 is not None and hasattr(a0, "numpy"):
         b0 = a0.numpy()
-        if b0.dtype.kind == "f" and b0.size and b0.shape[0] == 1 and np.any(b0 != 0):
+        # zero-valued fields (margins, gaps, friction loss, ...) are perturbed additively below
+        if b0.dtype.kind == "f" and b0.size and b0.shape[0] == 1:
           cands.append(f)
     acc.hit(f"candidates:{len(cands)}")
     for field in rng.choice(cands, size=min(len(cands), 8 if not ctx.thorough else 20), replace=False):
@@ -82,7 +83,11 @@ def _run(ctx, ncases, nsteps):
       if base.dtype.kind != "f" or base.size == 0 or base.shape[0] != 1:
         continue
       scales = rng.uniform(0.8, 1.2, size=nb)
-      batched = np.concatenate([base * s for s in scales], axis=0).astype(base.dtype)
+      if np.any(base != 0):
+        batched = np.concatenate([base * s for s in scales], axis=0).astype(base.dtype)
+      else:
+        # all-zero field: small non-negative offsets, the first slice stays at the model's value
+        batched = np.concatenate([base + (0.0 if k == 0 else rng.uniform(0.01, 0.06)) for k in range(nb)], axis=0).astype(base.dtype)
       setattr(obj, name, wp.array(batched, dtype=arr.dtype))
 
       def run(model, nw):
